@@ -176,23 +176,55 @@ Theorem C02for_deterministic :
 Proof. exact expand_deterministic. Qed.
 Print Assumptions C02for_deterministic.
 
+(* ---- attributes (ignore_error, silent, set, shopt, platforms, defer; deps: silent) ---- *)
+
+(* every command produced from entry e carries exactly e's attributes — whatever the loop form
+   (list, list variable, sources / generates, matrix, split / fields, map) and the map order *)
+Theorem C02for_attrs_preserved :
+  forall (mo : map_order) (e : entry) (x : xcmd),
+    In x (expand mo [e]) -> entry_attrs e = Some (attrs_of x).
+Proof. exact expand_attrs_preserved. Qed.
+Print Assumptions C02for_attrs_preserved.
+
+Theorem C02for_attrs_for :
+  forall (mo : map_order) (l : loop) (a : string) (c : cmdt) (x : xcmd),
+    In x (expand mo [For l a c]) -> attrs_of x = cattrs_of c.
+Proof. exact expand_for_attrs. Qed.
+Print Assumptions C02for_attrs_for.
+
+(* in the expansion of a whole cmds / deps list, every command has the attributes of one of the entries *)
+Theorem C02for_attrs_from_entry :
+  forall (mo : map_order) (es : list entry) (x : xcmd),
+    In x (expand mo es) -> exists e, In e es /\ entry_attrs e = Some (attrs_of x).
+Proof. exact expand_attrs_from_entry. Qed.
+Print Assumptions C02for_attrs_from_entry.
+
+(* the attribute monitor evaluated on the implementation's list accepts every expansion of the model *)
+Theorem C02for_attrs_monitor :
+  forall mo : map_order, (forall kvs, Permutation (mo kvs) kvs) ->
+    forall es : list entry, mon_attrs es (expand mo es) = true.
+Proof. exact mon_attrs_expand. Qed.
+Print Assumptions C02for_attrs_monitor.
+
 (* ------------------------------------------------------------------ *)
 (* Non-vacuity *)
 
-Definition echo (t : tmpl) : cmdt := TShell (PLit "echo " :: t).
+Definition echo (t : tmpl) : cmdt := TShell no_attrs (PLit "echo " :: t).
+Notation sh := (XShell no_attrs).
+Notation cl := (XCall no_attrs).
 
 (* the matrix example of the documentation (usage: "Looping over a matrix") *)
 Example C02for_example_matrix :
   expand id_order
-    [Plain (XShell "first");
+    [Plain (sh "first");
      For (LMatrix [("OS", ["windows"; "linux"; "darwin"]); ("ARCH", ["amd64"; "arm64"])]) ""
          (echo [PField "ITEM" "OS"; PLit "/"; PField "ITEM" "ARCH"]);
-     Plain (XShell "last")]
-  = [XShell "first";
-     XShell "echo windows/amd64"; XShell "echo windows/arm64";
-     XShell "echo linux/amd64"; XShell "echo linux/arm64";
-     XShell "echo darwin/amd64"; XShell "echo darwin/arm64";
-     XShell "last"].
+     Plain (sh "last")]
+  = [sh "first";
+     sh "echo windows/amd64"; sh "echo windows/arm64";
+     sh "echo linux/amd64"; sh "echo linux/arm64";
+     sh "echo darwin/amd64"; sh "echo darwin/arm64";
+     sh "last"].
 Proof. vm_compute. reflexivity. Qed.
 
 (* an empty row: no combination at all *)
@@ -203,13 +235,13 @@ Proof. vm_compute. reflexivity. Qed.
 (* list with a duplicate and an item with a blank; `as:`; a task call with vars *)
 Example C02for_example_list :
   expand id_order
-    [For (LList ["a"; "b c"; "a"]) "FILE" (TCall [PLit "sub-"; PVar "FILE"] [("V", [PVar "FILE"; PVar "ITEM"])])]
-  = [XCall "sub-a" [("V", "a")]; XCall "sub-b c" [("V", "b c")]; XCall "sub-a" [("V", "a")]].
+    [For (LList ["a"; "b c"; "a"]) "FILE" (TCall no_attrs [PLit "sub-"; PVar "FILE"] [("V", [PVar "FILE"; PVar "ITEM"])])]
+  = [cl "sub-a" [("V", "a")]; cl "sub-b c" [("V", "b c")]; cl "sub-a" [("V", "a")]].
 Proof. vm_compute. reflexivity. Qed.
 
 Example C02for_example_split :
   expand id_order [For (LSplit "a,,b c," ",") "" (echo [PVar "ITEM"])]
-  = [XShell "echo a"; XShell "echo "; XShell "echo b c"; XShell "echo "].
+  = [sh "echo a"; sh "echo "; sh "echo b c"; sh "echo "].
 Proof. vm_compute. reflexivity. Qed.
 
 Example C02for_example_split_multi : split "::" "a::b:::c" = ["a"; "b"; ":c"].
@@ -218,34 +250,57 @@ Proof. vm_compute. reflexivity. Qed.
 Example C02for_example_fields :
   expand id_order [For (LSplit "  foo.txt	bar.txt
  baz " "") "" (echo [PVar "ITEM"])]
-  = [XShell "echo foo.txt"; XShell "echo bar.txt"; XShell "echo baz"].
+  = [sh "echo foo.txt"; sh "echo bar.txt"; sh "echo baz"].
 Proof. vm_compute. reflexivity. Qed.
 
 (* a map loop binds KEY; the monitor accepts both iteration orders and nothing else *)
 Definition ex_map : list entry :=
-  [Plain (XShell "p"); For (LMap [("k1", "v1"); ("k2", "v2")]) "" (echo [PVar "KEY"; PLit "="; PVar "ITEM"]); Plain (XShell "q")].
+  [Plain (sh "p"); For (LMap [("k1", "v1"); ("k2", "v2")]) "" (echo [PVar "KEY"; PLit "="; PVar "ITEM"]); Plain (sh "q")].
 Example C02for_example_map :
-  expand id_order ex_map = [XShell "p"; XShell "echo k1=v1"; XShell "echo k2=v2"; XShell "q"] /\
-  mon_for ex_map [XShell "p"; XShell "echo k2=v2"; XShell "echo k1=v1"; XShell "q"] = true /\
-  mon_for ex_map [XShell "echo k1=v1"; XShell "p"; XShell "echo k2=v2"; XShell "q"] = false /\
-  mon_for ex_map [XShell "p"; XShell "echo k1=v1"; XShell "echo k1=v1"; XShell "q"] = false.
+  expand id_order ex_map = [sh "p"; sh "echo k1=v1"; sh "echo k2=v2"; sh "q"] /\
+  mon_for ex_map [sh "p"; sh "echo k2=v2"; sh "echo k1=v1"; sh "q"] = true /\
+  mon_for ex_map [sh "echo k1=v1"; sh "p"; sh "echo k2=v2"; sh "q"] = false /\
+  mon_for ex_map [sh "p"; sh "echo k1=v1"; sh "echo k1=v1"; sh "q"] = false.
 Proof. vm_compute. repeat split; reflexivity. Qed.
 
 (* the monitor discriminates: last key slowest, a swapped list, a lost item, an extra item and a
    loop hoisted before the plain command in front of it are all rejected *)
 Definition ex_es : list entry :=
-  [Plain (XShell "p");
+  [Plain (sh "p");
    For (LMatrix [("A", ["1"; "2"]); ("B", ["x"; "y"])]) "" (echo [PField "ITEM" "A"; PField "ITEM" "B"]);
    For (LList ["u"; "v"]) "" (echo [PVar "ITEM"])].
 Example C02for_example_monitor :
-  mon_for ex_es [XShell "p"; XShell "echo 1x"; XShell "echo 1y"; XShell "echo 2x"; XShell "echo 2y"; XShell "echo u"; XShell "echo v"] = true /\
-  mon_for ex_es [XShell "p"; XShell "echo 1x"; XShell "echo 2x"; XShell "echo 1y"; XShell "echo 2y"; XShell "echo u"; XShell "echo v"] = false /\
-  mon_for ex_es [XShell "p"; XShell "echo 1x"; XShell "echo 1y"; XShell "echo 2x"; XShell "echo 2y"; XShell "echo v"; XShell "echo u"] = false /\
-  mon_for ex_es [XShell "p"; XShell "echo 1x"; XShell "echo 1y"; XShell "echo 2x"; XShell "echo 2y"; XShell "echo u"] = false /\
-  mon_for ex_es [XShell "p"; XShell "echo 1x"; XShell "echo 1y"; XShell "echo 2x"; XShell "echo 2y"; XShell "echo u"; XShell "echo v"; XShell "echo v"] = false /\
-  mon_for ex_es [XShell "echo 1x"; XShell "p"; XShell "echo 1y"; XShell "echo 2x"; XShell "echo 2y"; XShell "echo u"; XShell "echo v"] = false.
+  mon_for ex_es [sh "p"; sh "echo 1x"; sh "echo 1y"; sh "echo 2x"; sh "echo 2y"; sh "echo u"; sh "echo v"] = true /\
+  mon_for ex_es [sh "p"; sh "echo 1x"; sh "echo 2x"; sh "echo 1y"; sh "echo 2y"; sh "echo u"; sh "echo v"] = false /\
+  mon_for ex_es [sh "p"; sh "echo 1x"; sh "echo 1y"; sh "echo 2x"; sh "echo 2y"; sh "echo v"; sh "echo u"] = false /\
+  mon_for ex_es [sh "p"; sh "echo 1x"; sh "echo 1y"; sh "echo 2x"; sh "echo 2y"; sh "echo u"] = false /\
+  mon_for ex_es [sh "p"; sh "echo 1x"; sh "echo 1y"; sh "echo 2x"; sh "echo 2y"; sh "echo u"; sh "echo v"; sh "echo v"] = false /\
+  mon_for ex_es [sh "echo 1x"; sh "p"; sh "echo 1y"; sh "echo 2x"; sh "echo 2y"; sh "echo u"; sh "echo v"] = false.
 Proof. vm_compute. repeat split; reflexivity. Qed.
 
 (* the instance of the theorem *)
 Example C02for_example_by_theorem : mon_for ex_es (expand id_order ex_es) = true.
 Proof. apply C02for_monitor. intros kvs. apply Permutation_refl. Qed.
+
+(* attributes: a looped command with ignore_error / silent / set / shopt / platforms keeps them in every
+   iteration; the monitors reject an expansion that lost ignore_error on the loop's commands; run
+   end to end, the iteration that fails is suppressed and everything after it still runs, whereas
+   without ignore_error the task stops there *)
+Definition ex_attrs : attrs :=
+  {| a_ignore_error := true; a_silent := true; a_set := ["e"]; a_shopt := ["globstar"];
+     a_platforms := ["linux"; "darwin/arm64"]; a_defer := false |}.
+Definition ex_loop (a : attrs) : list entry :=
+  [For (LList ["0"; "7"; "0"]) "" (TShell a [PLit "echo ""L:"; PVar "ITEM"; PLit """; (exit "; PVar "ITEM"; PLit ")"]);
+   Plain (sh "echo ""after""")].
+Definition ign : attrs :=
+  {| a_ignore_error := true; a_silent := false; a_set := []; a_shopt := []; a_platforms := []; a_defer := false |}.
+Example C02for_example_attrs :
+  expand id_order (ex_loop ex_attrs)
+  = [XShell ex_attrs "echo ""L:0""; (exit 0)"; XShell ex_attrs "echo ""L:7""; (exit 7)";
+     XShell ex_attrs "echo ""L:0""; (exit 0)"; sh "echo ""after"""] /\
+  mon_for (ex_loop ign) (expand id_order (ex_loop no_attrs)) = false /\
+  mon_attrs (ex_loop ign) (expand id_order (ex_loop no_attrs)) = false /\
+  mon_attrs (ex_loop ign) (expand id_order (ex_loop ign)) = true /\
+  run_spec (spec_expand (ex_loop ign)) = (["L:0"; "L:7"; "L:0"; "after"], true) /\
+  run_spec (spec_expand (ex_loop no_attrs)) = (["L:0"; "L:7"], false).
+Proof. vm_compute. repeat split; reflexivity. Qed.
